@@ -132,10 +132,80 @@ def gen(outdir):
                 if m.desc is None:
                     break
                 ast.fix_missing_locations(new)
-                f.write(json.dumps(dict(id=n, qual=q, file=rel, k=k, desc=m.desc, serves=serves)) + '\n')
+                f.write(json.dumps(dict(id=n, qual=q, file=rel, k=k, desc=m.desc, serves=serves, lo=lo, hi=hi)) + '\n')
                 n += 1
                 k += 1
     print('%d mutants' % n)
+
+
+CHECKS_BY_FILE = {
+    'lomond/response.py': ['C10'], 'lomond/extension.py': ['C06'], 'lomond/proxy.py': ['C19'], 'lomond/selectors.py': ['C18', 'C13'],
+    'lomond/events.py': ['C01', 'C16'], 'lomond/message.py': ['C01', 'C08'], 'lomond/opcode.py': ['C04'], 'lomond/status.py': ['C04', 'C08'],
+    'lomond/frame.py': ['C03', 'C04'], 'lomond/parser.py': ['C02', 'C10'], 'lomond/frame_parser.py': ['C05', 'C04'], 'lomond/stream.py': ['C01', 'C06'],
+    'lomond/websocket.py': ['C10', 'C17', 'C08'], 'lomond/session.py': ['C15', 'C13'], 'lomond/compression.py': ['C06'], 'lomond/mask.py': ['C03'],
+    'lomond/persist.py': ['C16'], 'lomond/utf8validator.py': ['C05'],
+}
+
+
+def gen_rest(outdir):
+    """mutants of the functions that are NOT under a contract of their own (constructors, properties, helpers inlined
+    into their callers, code covered by bounded stand-ins or assumed as external): judged by whole property checks"""
+    os.makedirs(outdir, exist_ok=True)
+    covered = set((rel, lo) for q, rel, lo, hi, s_ in targets())
+    n = 0
+    with open(os.path.join(outdir, 'mutants.jsonl'), 'w') as f:
+        for rel in sorted(CHECKS_BY_FILE):
+            src = open(os.path.join(REPO, rel)).read()
+            tree = ast.parse(src)
+            for node in ast.walk(tree):
+                if not isinstance(node, ast.FunctionDef) or (rel, node.lineno) in covered:
+                    continue
+                if node.name in ('__repr__', '__str__', '__del__') or any(isinstance(p, ast.If) and 'PY2' in ast.unparse(p.test) and p.lineno <= node.lineno <= p.end_lineno
+                                                                          and node in ast.walk(p.body[0] if p.body else p) for p in ast.walk(tree)):
+                    continue
+                inner = [x for x in ast.walk(node) if isinstance(x, ast.FunctionDef) and x is not node]
+                k = 0
+                while True:
+                    m = Mutator(node.lineno, node.end_lineno, k)
+                    m.visit(copy.deepcopy(tree))
+                    if m.desc is None:
+                        break
+                    f.write(json.dumps(dict(id=n, qual='%s:%s' % (rel, node.name), file=rel, k=k, desc=m.desc, serves=CHECKS_BY_FILE[rel],
+                                            lo=node.lineno, hi=node.end_lineno)) + '\n')
+                    n += 1
+                    k += 1
+    print('%d mutants' % n)
+
+
+def phase_check_properties(outdir):
+    ms = [json.loads(l) for l in open(os.path.join(outdir, 'survivors.jsonl'))]
+    rp = os.path.join(outdir, 'results.jsonl')
+    done = {json.loads(l)['id'] for l in open(rp)} if os.path.exists(rp) else set()
+    with open(rp, 'a') as f:
+        for m in ms:
+            if m['id'] in done:
+                continue
+            d = os.path.join(outdir, 'm%d' % m['id'])
+            t0 = time.time()
+            verdict, lines = 'NOT DETECTED', []
+            for c in m['serves']:
+                try:
+                    p = subprocess.run(['/verif/check', c], capture_output=True, text=True, timeout=1500, cwd='/verif',
+                                       env=dict(os.environ, LOMOND_ROOT=d, PYVC_EVIDENCE_DIR='/tmp/scratch-evidence-mut'))
+                    rc, last = p.returncode, (p.stdout.strip().splitlines() or ['no output'])
+                except subprocess.TimeoutExpired:
+                    rc, last = 2, ['timeout']
+                first = next((l for l in last if l.startswith(('VIOLATION', 'UNDECIDED', 'CHECKER-FAULT'))), last[-1])
+                lines.append('%s exit=%d %s' % (c, rc, first[:160]))
+                if rc == 1:
+                    verdict = 'detected'
+                    break
+                if rc in (2, 3) and verdict != 'detected':
+                    verdict = 'undecided'
+            m = dict(m, verdict=verdict, check=' | '.join(lines), wall=round(time.time() - t0, 1))
+            f.write(json.dumps(m) + '\n')
+            f.flush()
+            print('%4d %-12s %-45s %s | %s' % (m['id'], m['verdict'], m['qual'], m['desc'][:60], m['check'][:140]))
 
 
 def materialise(outdir, m):
@@ -147,10 +217,11 @@ def materialise(outdir, m):
     shutil.copytree(os.path.join(REPO, 'lomond'), os.path.join(d, 'lomond'))
     src = open(os.path.join(REPO, m['file'])).read()
     tree = ast.parse(src)
-    lo, hi = None, None
-    for q, rel, l, h, _s in TARGETS:
-        if q == m['qual']:
-            lo, hi = l, h
+    lo, hi = m.get('lo'), m.get('hi')
+    if lo is None:
+        for q, rel, l, h, _s in TARGETS:
+            if q == m['qual']:
+                lo, hi = l, h
     mu = Mutator(lo, hi, m['k'])
     new = mu.visit(tree)
     ast.fix_missing_locations(new)
@@ -280,6 +351,10 @@ if __name__ == '__main__':
     cmd, outdir = sys.argv[1], sys.argv[2]
     if cmd == 'gen':
         gen(outdir)
+    elif cmd == 'gen-rest':
+        gen_rest(outdir)
+    elif cmd == 'check-properties':
+        phase_check_properties(outdir)
     elif cmd == 'tests':
         phase_tests(outdir, int(sys.argv[4]) if len(sys.argv) > 4 else 12)
     elif cmd == 'check':
